@@ -47,6 +47,11 @@ package risc
 
 //@ func InstructionRunner.Run
 //@   requires runPre(self, ctx, memory) && sequenceID == 0
+//@   -- only branch types change the pc; an execution is at most one of register write / store / return / pc change
+//@   -- besides a jump-and-link, which changes the pc and writes its link register
+//@   ensures result1 == nil && result.PcChange ==> insType(self).IsBranch()
+//@   ensures result1 == nil && result.MemoryChange ==> !result.PcChange && !result.RegisterChange && !result.Return
+//@   ensures result1 == nil && result.Return ==> !result.PcChange && !result.RegisterChange && !result.MemoryChange
 //@   assigns nothing
 
 // wfZero: the context reads the zero register as 0 (context invariant
